@@ -169,6 +169,16 @@ class InfoCompiler(BaseOutlineCompiler):
         orig_names = {
             (n.nameID, n.platformID, n.platEncID, n.langID): n for n in orig.names
         }
+        # a string is written under the Windows BMP encoding or, when it has
+        # characters beyond the BMP, under the full-repertoire one: when an override
+        # changes the encoding of a name, the record that the default source wrote
+        # under the other encoding must go, lest the font carry two different strings
+        rewritten = {(n.nameID, n.platformID, n.langID) for n in temp.names}
+        orig_names = {
+            key: n
+            for key, n in orig_names.items()
+            if key in temp_names or (key[0], key[1], key[3]) not in rewritten
+        }
         orig_names.update(temp_names)
         orig.names = list(orig_names.values())
 
